@@ -122,7 +122,16 @@ class Exprs:
         if isinstance(v, (ConcObj, SymObj, VEnum, VExt, VClassRef, VFuncRef, VExc, VStream)):
             return z3.BoolVal(True)
         if isinstance(v, VPrimUnion):
-            raise Unsupported("truthiness of primitive union")
+            # the truth value of whichever alternative the tag selects (floats are opaque: an unknown boolean)
+            out: Any = z3.BoolVal(False)
+            for k, name in enumerate(v.order):
+                alt = v.alts[name]
+                if isinstance(alt, VFloat):
+                    t = z3.Bool(self.path.fresh_name("$float-truth"))
+                else:
+                    t = self.truthy(alt)
+                out = z3.If(v.kind == k, t, out)
+            return out
         if isinstance(v, VOpaque):
             return z3.Bool(self.path.fresh_name("$opaque-truth"))
         raise Unsupported(f"truthiness of {v!r}")
